@@ -206,7 +206,7 @@ def run(ctx):
     q = ctx.quick
     e1 = ctx.tlc("OpAlgebra", CFG % (1, "TRUE"), label="all leaves", workers=1)
     e2 = ctx.tlc("OpAlgebra", CFG % (2, "TRUE"), label="all 2-slot programs", workers=1, timeout=1500)
-    f3 = ctx.tlc("OpAlgebra", (CFG % (3 if q else 4, "TRUE")).replace('Focus = "all"', 'Focus = "diag"'), label="all %d-slot programs over the focused leaves" % (3 if q else 4),
+    f3 = ctx.tlc("OpAlgebra", (CFG % (3, "TRUE")).replace('Focus = "all"', 'Focus = "diag"'), label="all 3-slot programs over the focused leaves",
                  workers=1, timeout=3000)
     progs = e1.emitted + e2.emitted + f3.emitted
     if q:
